@@ -5,6 +5,26 @@ from props.render_common import run_render
 
 def run(rep, ctx):
     run_render(rep, ctx, 'c03', [('counts-and-detection', rc.c03_failures)], n_quick=600, n_thorough=10000, identity=True, big=True, small_caps=True)
+    # the same clauses under the other values of url_rules (none, empty, each rule, combinations): a page against itself, and the pair
+    from common import rng_for
+    rng = rng_for(ctx['seed'], 'c03-rules')
+    docs = rc.documents(rng, 60 if ctx['tier'] == 'quick' else 1500)
+    n_bad = 0
+    for i, (a, b) in enumerate(docs):
+        rules = [None, '', 'wayback', 'wayback_uk', 'jsessionid,wayback', 'wayback,wayback_uk,jsessionid'][i % 6]
+        for x, y in ((a, a), (b, b), (a, b)):
+            rep.count(('rules', rules, x, y), x != y)
+            try:
+                r = rc.render(x, y, include='all', url_rules=rules)
+                fails = rc.c03_failures(x, y, r) + (rc.identity_failures(x, r) if x == y else [])
+            except Exception as e:  # noqa
+                fails = ['html_diff_render raised %s: %s' % (type(e).__name__, e)]
+            if fails:
+                n_bad += 1
+                if n_bad <= 3:
+                    rep.violation('c03-rules-%d' % n_bad, {'what': fails[:4], 'a_text': x, 'b_text': y, 'url_rules': rules,
+                                                          'call': 'html_diff_render(a_text, b_text, include="all", url_rules=%r)' % (rules,)})
+    rep.obligation('observer c03: identity, counts and detection under every value of url_rules (%d pages)' % len(docs), n_bad == 0)
 
 
 def replay(rep, data):
